@@ -7,6 +7,7 @@ import (
 	"fmt"
 	"strings"
 
+	"github.com/kstenerud/go-concise-encoding/ce/events"
 	"github.com/kstenerud/go-concise-encoding/configuration"
 )
 
@@ -256,20 +257,58 @@ func nastyTextDoc(rng *Rng) []Event {
 		txt := nastyText(rng, rng.Intn(8))
 		switch rng.Intn(7) {
 		case 0, 1:
-			evs = append(evs, Event{K: "s", AT: 1, D: txt})
+			evs = append(evs, textDelivery(rng, 1, 0, txt)...)
 		case 2:
-			evs = append(evs, Event{K: "s", AT: 2, D: txt}) // resource id
+			evs = append(evs, textDelivery(rng, 2, 0, txt)...) // resource id
 		case 3:
-			evs = append(evs, Event{K: "ct", N: uint64(rng.Intn(100)), D: txt})
+			evs = append(evs, textDelivery(rng, 4, uint64(rng.Intn(100)), txt)...) // custom text
 		case 4:
 			evs = append(evs, Event{K: "cm", B: false, D: txt}, Event{K: "n"})
 		case 5:
 			evs = append(evs, Event{K: "cm", B: true, D: txt}, Event{K: "n"})
 		default:
-			evs = append(evs, Event{K: "s", AT: 3, D: txt}) // remote reference
+			evs = append(evs, textDelivery(rng, 3, 0, txt)...) // remote reference
 		}
 	}
 	return append(evs, Event{K: "end"}, Event{K: "ed"})
+}
+
+// textDelivery: the same text as one string-typed event (half of the time), as an array of bytes,
+// or as chunks split on a character boundary - the encoders take different paths for each
+// (seeded change C02B3: the byte path's "needs no escaping" shortcut judged bytes, not characters)
+func textDelivery(rng *Rng, at events.ArrayType, ctype uint64, txt []byte) []Event {
+	form := rng.Intn(4)
+	if form < 2 || (at == 4 && form == 2) {
+		if at == 4 {
+			return []Event{{K: "ct", N: ctype, D: txt}}
+		}
+		return []Event{{K: "s", AT: at, D: txt}}
+	}
+	if form == 2 {
+		return []Event{{K: "a", AT: at, N: uint64(len(txt)), D: txt}}
+	}
+	var out []Event
+	if at == 4 {
+		out = append(out, Event{K: "cbg", AT: at, N: ctype})
+	} else {
+		out = append(out, Event{K: "ab", AT: at})
+	}
+	cut := 0
+	if len(txt) > 0 {
+		cut = rng.Intn(len(txt) + 1)
+		for cut < len(txt) && txt[cut]&0xc0 == 0x80 {
+			cut++
+		}
+	}
+	if cut > 0 && cut < len(txt) {
+		out = append(out, Event{K: "ac", N: uint64(cut), B: true}, Event{K: "ad", D: txt[:cut]})
+		txt = txt[cut:]
+	}
+	out = append(out, Event{K: "ac", N: uint64(len(txt)), B: false})
+	if len(txt) > 0 {
+		out = append(out, Event{K: "ad", D: txt})
+	}
+	return out
 }
 
 // withKey: the finding class of a line is the part of its id after '|': a case that belongs to a
